@@ -72,6 +72,8 @@ pub fn programs() -> Vec<(&'static str, Module, bool)> {
             ]),
             true,
         ),
+        // strings without a payload, and one-byte ones
+        ("empty-strings", module(vec![("main", func(&[], vec![sg("t", C::CreateTable), C::Repeat { n: b(int(60)), i: Some("i".into()), body: b(comp(vec![sg("e", s("")), sg("o", s("x")), C::SetProperty(b(s("")), b(rv("t")), b(rv("i")))])) }, sg("len", C::Len(b(rv("t"))))]))]), true),
         ("reads-global", module(vec![("main", func(&[], vec![sg("g", int(7)), sg("h", add(rv("g"), int(1)))]))]), true),
     ]
 }
@@ -327,7 +329,7 @@ impl Check for C17 {
     }
     fn info(&self, tier: Tier) -> CheckInfo {
         CheckInfo {
-            rule: format!("{} programs on one VM with a 64 KiB limit and a 30000-instruction budget: ok-small, ok-allocating, gc-heavy (several collections), timeout, out-of-memory with live data, value-stack overflow, call-stack overflow, native error inside a callee with locals, leaves-globals, error with an open upvalue, stray values left on the stack, reads-global. BFS over histories of run(P_i) / clear to depth {}: a run on a fresh or cleared VM must equal the run of the same program on a new VM in result, globals, host log, instructions executed, accounted memory and object count after the run; after every clear the counters (allocated, next_gc, limit), both stack heights, globals, object list and open-upvalue list equal those of a new VM; programs that leave the stacks balanced may also follow each other without clear and must give the same outcome. Repetition: every program 1..{} times with clear in between, balanced programs 1..{} times without clear. Canonical state = hook dump of counters, stack heights, globals, object count, open upvalues. Non-trivial = state with something run since the last clear", programs().len(), tier.pick(4, 6), tier.pick(300, 600), tier.pick(300, 600)),
+            rule: format!("{} programs on one VM with a 64 KiB limit and a 30000-instruction budget: ok-small, ok-allocating, gc-heavy (several collections), timeout, out-of-memory with live data, value-stack overflow, call-stack overflow, native error inside a callee with locals, leaves-globals, error with an open upvalue, stray values left on the stack, empty and one-byte strings, reads-global. BFS over histories of run(P_i) / clear to depth {}: a run on a fresh or cleared VM must equal the run of the same program on a new VM in result, globals, host log, instructions executed, accounted memory and object count after the run; after every clear the counters (allocated, next_gc, limit), both stack heights, globals, object list and open-upvalue list equal those of a new VM; programs that leave the stacks balanced may also follow each other without clear and must give the same outcome. Repetition: every program 1..{} times with clear in between, balanced programs 1..{} times without clear. Canonical state = hook dump of counters, stack heights, globals, object count, open upvalues. Non-trivial = state with something run since the last clear", programs().len(), tier.pick(4, 6), tier.pick(300, 600), tier.pick(300, 600)),
             bound: format!("history depth {}, repetition {}", tier.pick(4, 6), tier.pick(300, 600)),
             exhaustive: true,
             assumptions: vec!["host-registered functions are the same on every VM".into()],
